@@ -33,6 +33,8 @@ structure Agent where
   pruning     : List Nat := []          -- agent->pruning_streams (ids): removed, not yet closed
   keepalive   : Bool := false           -- keepalive timer armed
   nextId      : Nat := 1                -- agent->next_stream_id
+  unsched     : Nat := 0                -- agent->discovery_unsched_items (items still waiting for their pacing slot)
+  discTimer   : Bool := false           -- agent->discovery_timer_source != NULL
   deriving Repr
 
 /-- nice_agent_add_stream -/
@@ -48,6 +50,9 @@ def closeStream (a : Agent) (sid : Nat) : Agent :=
 def isLiveOf (sid : Nat) (r : Refresh) : Bool := r.sid == sid && r.st == .live
 def isRemovingOf (sid : Nat) (r : Refresh) : Bool := r.sid == sid && r.st == .removing
 
+/-- discovery_free resets the counter of unscheduled items when (and only when) the discovery list becomes empty -/
+def unschedAfter (disc : List Nat) (u : Nat) : Nat := if disc.isEmpty then 0 else u
+
 /-- nice_agent_remove_stream: unknown ids are ignored; discovery items, triggered checks and the check
     list are pruned at once; live refreshes become `removing` and the stream waits on `pruning`
     — unless there is none, in which case the stream is closed before the call returns; the
@@ -58,6 +63,9 @@ def removeStream (a : Agent) (sid : Nat) : Agent :=
     let base : Agent :=
       { a with streams := streams,
                discovery := a.discovery.filter (· != sid),
+               -- discovery_prune_stream: the counter is reset (discovery_free) only when the list becomes empty
+               unsched := unschedAfter (a.discovery.filter (· != sid)) a.unsched,
+               discTimer := a.discTimer && !(a.discovery.filter (· != sid)).isEmpty,
                triggered := a.triggered.filter (· != sid),
                checkLists := a.checkLists.filter (·.1 != sid),
                keepalive := a.keepalive && !streams.isEmpty }
@@ -87,8 +95,10 @@ def mentions (a : Agent) (sid : Nat) : Bool :=
 inductive Op
   | add
   | remove (sid : Nat)
-  | gather (sid k : Nat)        -- k discovery items scheduled for a stream
-  | discDone (sid : Nat)        -- one discovery item finished
+  | gather (sid k : Nat)        -- k discovery items created for a stream (each counted as unscheduled)
+  | discDone (sid : Nat)        -- one discovery item pruned (discovery_prune_socket)
+  | sched                       -- the discovery tick gives one item its pacing slot
+  | discFinished                -- the discovery tick found every item done: discovery_free
   | alloc (sid : Nat)           -- TURN allocation succeeded: a refresh is created
   | refreshDropped (sid : Nat)  -- refresh_prune_candidate / refresh failure: a live refresh is freed
   | forget (sid : Nat)          -- forget_relays: one live refresh starts being disposed
@@ -102,8 +112,15 @@ inductive Op
 def step (a : Agent) : Op → Agent
   | .add => (addStream a).1
   | .remove sid => removeStream a sid
-  | .gather sid k => if a.streams.contains sid then { a with discovery := a.discovery ++ List.replicate k sid } else a
-  | .discDone sid => { a with discovery := a.discovery.erase sid }
+  | .gather sid k =>
+      if a.streams.contains sid && k != 0 then
+        { a with discovery := a.discovery ++ List.replicate k sid, unsched := a.unsched + k, discTimer := true } else a
+  | .discDone sid =>
+      { a with discovery := a.discovery.erase sid,
+               unsched := unschedAfter (a.discovery.erase sid) a.unsched,
+               discTimer := a.discTimer && !(a.discovery.erase sid).isEmpty }
+  | .sched => { a with unsched := a.unsched - 1 }
+  | .discFinished => { a with discovery := [], unsched := 0, discTimer := false }
   | .alloc sid => if a.streams.contains sid then { a with refreshes := a.refreshes ++ [⟨sid, .live⟩] } else a
   | .refreshDropped sid => { a with refreshes := a.refreshes.erase ⟨sid, .live⟩ }
   | .forget sid =>
@@ -127,7 +144,9 @@ def wfb (a : Agent) : Bool :=
   a.pruning.all (fun s => a.refreshes.contains ⟨s, .removing⟩) &&
   a.streams.all (· < a.nextId) && a.pruning.all (· < a.nextId) &&
   a.pruning.all (fun s => !a.streams.contains s) &&
-  (!a.keepalive || !a.streams.isEmpty)
+  (!a.keepalive || !a.streams.isEmpty) &&
+  (a.unsched == 0 || !a.discovery.isEmpty) &&
+  (!a.discTimer || !a.discovery.isEmpty)
 
 def run (ops : List Op) : Agent := ops.foldl step {}
 
